@@ -164,6 +164,16 @@ CLAIMED = {
             "body kind; 154 (quick) / 3k (thorough) recorded real schedules validated; binding self-test.",
             "Real schedules sampled; ordering of overlapping operations not judged; race detector trusted.",
             "§8 C10"),
+    "C11": ("EnvLock.tla models the scope tree with one RWMutex per scope and lookups that climb holding their read locks; TLC "
+            "checks deadlock freedom and reads-see-latest-set (and exhibits the deadlock of a shared-mutex variant); Def.tla "
+            "gives every program's solo outcome; the real code runs every set of programs simultaneously on one environment "
+            "and each must equal its solo outcome; the hook's per-scope operation log is validated by TraceEnv.tla; race "
+            "detector run",
+            "Exhaustive over all pairs (quick, 136 sets x 2 repetitions) / triples (thorough, 816 sets x 4) of a 16-template "
+            "pool; 46 / 300 recorded scope logs validated (42k+ events); binding self-test.",
+            "Schedules are whatever the Go scheduler produces under load (not enumerated); programs with futures are not in "
+            "the pool; the race detector is trusted.",
+            "§8 C11"),
 }
 
 NOT_YET = "check not built yet in this round (planned in DESIGN.md §8; the specification module exists or is in progress)"
